@@ -63,13 +63,14 @@ type pathCtx struct {
 	maxSteps int64
 	choices  map[string]int // recorded verifChoice results (for replay models)
 	assumed  []string
+	proved   map[string]bool
 }
 
 func newPathCtx(s *solver, pre prefix, harness string) *pathCtx {
 	p := &pathCtx{s: s, pre: pre, harness: harness,
 		varSeen: map[string]bool{}, nameCnt: map[string]int{},
 		reached: map[string]bool{}, witness: map[string]model{},
-		notes: map[string]int{}, choices: map[string]int{}}
+		notes: map[string]int{}, choices: map[string]int{}, proved: map[string]bool{}}
 	s.reset()
 	if pre.model != nil {
 		p.cur = pre.model
@@ -247,9 +248,16 @@ func (p *pathCtx) oblige(c *term, kind, tag, where, stack string) {
 		p.recordFailure(kind, tag, where, stack, p.modelNow())
 		p.abort("always-fails", kind+" "+tag)
 	}
+	key := c.String()
+	if p.proved[key] {
+		p.stats.Discharged++
+		p.stats.ObligationsTrivial++
+		return
+	}
 	r, m := p.feasible(tNot(c))
 	switch r {
 	case rUnsat:
+		p.proved[key] = true
 		p.stats.Discharged++
 	case rSat:
 		p.recordFailure(kind, tag, where, stack, m)
